@@ -88,7 +88,7 @@ let () =
              let (mp, mc) = prog_prefix p in
              let mfx =
                if mc then Some (mp, mp, n_of_int (List.length mp), n_of_int (List.length mp))
-               else match accepted_length_cached p, constant_suffix p with
+               else match accepted_length_cached p, constant_suffix_b p with
                  | Some (a, b), Some s -> Some (mp, s, a, b)
                  | _, _ -> None in
              match mfx with
@@ -97,6 +97,7 @@ let () =
              | None -> c.bad <- "FACTS regex " ^ k ^ ": model analysis failed"
            end;
            if not (wf p) then c.bad <- "NOTWF regex " ^ k;
+           if int_of_string ncap < 2 then c.bad <- "NCAP regex " ^ k;
            c.tbl <- (int_of_string k, { r_prog = p; r_ncap = nat_of_int (int_of_string ncap); r_facts = fx }) :: c.tbl
        | [ "OR" ] -> c.ors <- [] :: c.ors
        | "COND" :: inv :: es ->
